@@ -78,6 +78,10 @@ func (t *trace) nontrivial() bool {
 }
 
 func literal(l string) []byte {
+	if l == "l3" {
+		// Unhashable of the specification: a part that announces base64 and is not (rfc822.GetMessageHash fails)
+		return []byte("From: v@verif.test\r\nDate: Mon, 7 Feb 1994 21:52:25 -0800\r\nSubject: " + l + "\r\nMIME-Version: 1.0\r\nContent-Type: text/plain; charset=utf-8\r\nContent-Transfer-Encoding: base64\r\n\r\nthis is !!! definitely *** not base64 ??? body of " + l + "\r\n")
+	}
 	return []byte("From: v@verif.test\r\nDate: Mon, 7 Feb 1994 21:52:25 -0800\r\nSubject: " + l + "\r\n\r\nbody of " + l + "\r\n")
 }
 
